@@ -40,6 +40,8 @@ type Ob struct {
 func (o *Ob) Key() string { return o.Rule + " @ " + o.Construct }
 
 type Ctx struct {
+	// skipWrap: the helper rules are run as a clause of another property, without the int32 overflow rule (a C01/C15 matter)
+	skipWrap bool
 	P     *load.Prog
 	E     *gf.Engine
 	G     *eff.Graph
